@@ -491,9 +491,10 @@ def part_handle_subscription(res, rng, driver):
     for p in ["", "p", "a/b", "1/2", "/"]:
         for ts in topic_sets:
             for raises in (False, True):
-                gw, rec = make_real("async", p, p, sub_raises=raises)
+                gw, rec = make_real("async" if raises else "sync", p, p, sub_raises=raises)
                 try:
-                    gw.tasks.transport.handle_subscription(list(ts))
+                    # a single topic may be passed as a bare string
+                    gw.tasks.transport.handle_subscription(ts[0] if len(ts) == 1 and raises else list(ts))
                     ended = "returned"
                 except Exception:  # noqa: BLE001
                     ended = "raised"
